@@ -311,6 +311,15 @@ def convStr (d : DS) (h : Handle) : String :=
       | none => "err/err"
     s!"raw={fmtKey k} id={k.archId} rt=1 hashraw=1 tf=[{joinWith " " tf}] sel={sel} sa={sa}"
 
+/-- C14: `==`, `!=` and hash agreement of a pair of handles (dynamically typed, then typed for
+every archetype both convert to): equality is equality of the two words, nothing else. -/
+def cmpStr (d : DS) (h1 h2 : Handle) : String :=
+  if h1.kind.isDirect != h2.kind.isDirect then "k=x" else
+  let tri : String := if h1.key.key = h2.key.key ∧ h1.key.ver = h2.key.ver then "101" else "01-"
+  let ty := d.ids.map (fun ida => if h1.key.archId = ida ∧ h2.key.archId = ida then tri else "-")
+  let k := if h1.kind.isDirect then "d" else "e"
+  s!"k={k} a={fmtKey h1.key} b={fmtKey h2.key} any={tri} t=[{joinWith " " ty}]"
+
 /-- One op: returns the model's observation and the new state.  `implObs` / `implSum`
 are used only for witnesses. -/
 def step (d : DS) (op : List String) (implObs implSum : String) : String × DS :=
@@ -655,6 +664,10 @@ def stepShort (d : DS) (op : List String) (implObs implSum : String) : String ×
       | some w =>
         let ai := natOf qn
         (dumpStr (d.ids.getD ai 0) (w.archs.getD ai (emptyStorage 0)), d)
+    else if cmd == "cmp" then
+      match d.getH qn, d.getH (kvs.getD 0 "_") with
+      | some h1, some h2 => (cmpStr d h1 h2, d)
+      | _, _ => ("undef", d)
     else if cmd == "conv" then
       match d.getH qn with
       | none => ("undef", d)
